@@ -78,6 +78,91 @@ def pred_uri(ops, impl):
     return pred_roundtrip(ops, impl) + pred_uri_wellformed(ops, impl)
 
 
+CLIENT_RULE = ("real Client + real Agent driven through a scripted connection, manual collector and virtual clock, one "
+               "event at a time (reader goroutine synchronised on 'next Read entered'): all histories to the depth bound "
+               "over {Start(2 ids differing in one bit), Indicate, response, garbage, tick at / just after the deadline, "
+               "scripted write failure, Close} for 3 configurations (exhaustive), plus long random histories (<= 125 "
+               "events, <= 12 ids, attempts 0..8, RTO changes); non-trivial = every case (each has a Start or a Close)")
+
+
+def _client_case(ops, impl):
+    """replays one client history from the implementation's answers; yields facts used by the C10/C11/C12/C15 predicates"""
+    st = {"att": 7, "noclose": False, "closed": False, "started": {}, "calls": {}, "viol": [], "connclose": 0,
+          "delivered": [], "pending_at_close": set()}
+    for i, (o, r) in enumerate(zip(ops, impl)):
+        t = o.split()
+        if len(t) < 2 or t[0] != "CL":
+            continue
+        f = dict(x.split("=", 1) for x in r.split() if "=" in x)
+        wr = [] if f.get("wr", "-") == "-" else f["wr"].split(",")
+        cb = [] if f.get("cb", "-") == "-" else f["cb"].split(",")
+        if t[1] == "new":
+            st.update(att=int(t[3]), noclose=t[4] == "1", closed=False, started={}, calls={}, connclose=0, delivered=[],
+                      pending_at_close=set())
+            continue
+        st["connclose"] += int(f.get("connclose", "0"))
+        if st["closed"] and (wr or cb):
+            st["viol"].append((i, "C15", "write or handler invocation after Close returned: " + r[:120]))
+        if t[1] == "deliver":
+            st["delivered"].append(t[2])
+        if t[1] == "start":
+            ok = f.get("ret") == "ok"
+            if st["closed"] and (f.get("ret") != "client-closed" or wr):
+                st["viol"].append((i, "C15", "Start after Close: " + r[:80]))
+            if t[4] != "-":
+                st["started"][t[4]] = {"id": t[2], "raw": t[3], "ok": ok, "writes": len(wr), "at": i}
+            if any(w != t[3] for w in wr) or len(wr) > 1:
+                st["viol"].append((i, "C11", "Start wrote something other than the message once"))
+            wr = []   # the write of a Start / Indicate belongs to that call
+        for w in wr:
+            wid = w[16:40]
+            for h, s_ in st["started"].items():
+                if s_["id"] == wid and s_["ok"] and h not in st["calls"]:
+                    s_["writes"] += 1
+                    if w != s_["raw"]:
+                        st["viol"].append((i, "C11", f"write for handler h{h} differs from the message given to Start"))
+                    if s_["writes"] > st["att"] + 1:
+                        st["viol"].append((i, "C11", f"more than attempts+1 writes for h{h}"))
+        for c in cb:
+            name, cid, kind = c.split(":", 2)
+            if name == "fb":
+                continue
+            h = name[1:]
+            st["calls"][h] = st["calls"].get(h, 0) + 1
+            s_ = st["started"].get(h)
+            if st["calls"][h] > 1:
+                st["viol"].append((i, "C10", f"handler h{h} invoked twice"))
+            if s_ is None or not s_["ok"]:
+                st["viol"].append((i, "C10", f"handler h{h} invoked although Start returned an error"))
+            elif s_["id"] != cid:
+                st["viol"].append((i, "C12", f"handler h{h} (id {s_['id']}) received an event for id {cid}"))
+            elif kind.startswith("msg:"):
+                raw = kind[4:]
+                if not any(d[:2048] == raw for d in st["delivered"]):
+                    st["viol"].append((i, "C12", f"handler h{h} saw a message that is not a delivered datagram"))
+        if t[1] == "close" and f.get("ret") in ("ok", "close-err") and not st["closed"]:
+            st["closed"] = True
+            st["pending_at_close"] = {h for h, s_ in st["started"].items() if s_["ok"] and h not in st["calls"]}
+            want = 0 if st["noclose"] else 1
+            if st["connclose"] != want:
+                st["viol"].append((i, "C15", f"connection closed {st['connclose']} times, expected {want}"))
+        elif t[1] == "close" and st["closed"] and f.get("ret") != "client-closed":
+            st["viol"].append((i, "C15", "second Close did not return ErrClientClosed"))
+    # end of history: every successfully started handler must have been invoked exactly once
+    if st["closed"]:
+        for h, s_ in st["started"].items():
+            if s_["ok"] and h not in st["calls"]:
+                why = "pending-at-Close" if h in st["pending_at_close"] else "never completed"
+                st["viol"].append((s_["at"], "C10", f"handler h{h} never invoked ({why}) id={s_['id']}"))
+    return st["viol"]
+
+
+def pred_client(prop):
+    def p(ops, impl):
+        return [(i, why) for (i, pr, why) in _client_case(ops, impl) if pr == prop]
+    return p
+
+
 STREAMS = {
     "msgtype": {"n": {"quick": 1, "thorough": 1}, "nontrivial": None},
     "decode": {"n": {"quick": 4000, "thorough": 150000}, "nontrivial": nt_decode},
@@ -92,6 +177,7 @@ STREAMS = {
                     "predicate_props": ["C17"]},
     "uri-std": {"n": {"quick": 3000, "thorough": 200000}, "nontrivial": nt_any},
     "uri-dial": {"n": {"quick": 1, "thorough": 1}, "nontrivial": None},
+    "client-hist": {"n": {"quick": 3, "thorough": 4}, "nontrivial": None, "timeout": 3000},
     "integrity": {"n": {"quick": 150, "thorough": 6000}, "nontrivial": nt_any, "predicate": pred_expect_reject},
     "fingerprint": {"n": {"quick": 100, "thorough": 5000}, "nontrivial": nt_any, "predicate": pred_expect_reject},
 }
@@ -304,5 +390,46 @@ PROPS = {
                        "that begin with '/' (known finding F8, refuted on a concrete URI in Lean and reported as "
                        "KNOWN-FINDING by the predicate); for all other inputs it is decided by the correspondence and "
                        "the predicate only",
+    },
+    "C10": {
+        "modules": ["Stun.Properties.C10"],
+        "theorems": ["Stun.C10.handler_at_most_once", "Stun.C10.never_started_never_invoked",
+                     "Stun.C10.start_error_not_registered", "Stun.C10.invoked_xor_pending",
+                     "Stun.C10.closed_no_invocation", "Stun.ClientProofs.run_spec", "Stun.ClientProofs.run_eq",
+                     "Stun.ClientProofs.callback_spec", "Stun.ClientProofs.retransmit_spec"],
+        "streams": ["client-hist"], "level": "proof", "predicate": pred_client("C10"),
+        "tagsets": [["verif"], ["verif", "race"]],
+        "rule": CLIENT_RULE,
+        "explanation": "full statement (exactly once, with a closed error on Close) is false on the unchanged tree: known "
+                       "finding F6; proved: at most once, never unstarted, exactly-once-or-still-registered. "
+                       "Interleavings inside one event (L2, known finding K1) are not expressible at this level.",
+    },
+    "C11": {
+        "modules": ["Stun.Properties.C11"],
+        "theorems": ["Stun.C11.writes_bit_identical", "Stun.C11.retransmit_guard", "Stun.C11.no_retransmit_before_deadline",
+                     "Stun.C11.nextTimeout_formula", "Stun.C11.setRTO_only_later", "Stun.C11.no_retransmit_when_disabled"],
+        "streams": ["client-hist"], "level": "proof", "predicate": pred_client("C11"),
+        "rule": CLIENT_RULE + "; message sizes 20..65535 incl. both sides of the former 2048-byte scratch buffer; the "
+                "caller's message is overwritten after every Start",
+    },
+    "C12": {
+        "modules": ["Stun.Properties.C12"],
+        "theorems": ["Stun.C12.delivery_by_id", "Stun.C12.message_is_datagram", "Stun.C12.unknown_to_fallback_only",
+                     "Stun.C12.garbage_is_noop"],
+        "streams": ["client-hist"], "level": "proof", "predicate": pred_client("C12"),
+        "rule": CLIENT_RULE + "; ids differing in one bit, datagrams longer than the 1024-byte reader buffer, unknown ids "
+                "and garbage interleaved",
+    },
+    "C15": {
+        "modules": ["Stun.Properties.C15"],
+        "theorems": ["Stun.C15.close_once", "Stun.C15.after_close_rejects", "Stun.C15.no_output_after_close",
+                     "Stun.C15.close_establishes"],
+        "streams": ["client-hist"], "level": "proof", "predicate": pred_client("C15"),
+        "tagsets": [["verif"], ["verif", "race"]],
+        "rule": CLIENT_RULE + "; option combinations default / WithNoConnClose / fallback handler / no-retransmit, agent and "
+                "connection Close errors, several Close calls; under WithNoConnClose the scripted Read is interrupted "
+                "so that the reader can exit; also built with -race",
+        "assumptions": ["goroutine exit, data races and deadlocks are runtime facts (harness: Close must return within "
+                        "20 s; -race build), not theorems"],
     },
 }
